@@ -110,11 +110,12 @@ def zeroPoint (addBias s wsum : Int) (sh pIn pOut : Nat) : Int :=
 def maupitiOut (acc' s zp : Int) (sh pOut : Nat) : Int :=
   requant acc' s zp sh (clipInf pOut) (clipSup pOut)
 
-/-- zero-point of the last MAUPITI linear layer: `add_bias - clip_inf * scale * sum(weight)` where
+/-- zero-point of the last MAUPITI layer (`MAUPITILinear`, and `MAUPITIConv2d` once its
+`skip_requant` branch is repaired to do the same): `add_bias - clip_inf * scale * sum(weight)` where
 `clip_inf` of a last layer is `-2 ** (in_precision - 1)` -/
 def zeroPointLast (addBias s wsum : Int) (pIn : Nat) : Int := addBias - inOffset pIn * s * wsum
 
-/-- last MAUPITI linear layer: `(acc' * scale + zero_point) / 2**shift`, no floor, no clip -/
+/-- last MAUPITI layer: `(acc' * scale + zero_point) / 2**shift`, no floor, no clip -/
 def maupitiLast (acc' s zp : Int) (sh : Nat) : Rat := ((acc' * s + zp : Int) : Rat) / pow2 sh
 
 /-! ## MAUPITI padding: `nn.ConstantPad2d((p1, p1, p0, p0), in_offset)` (after fix d66c6a7)
